@@ -772,6 +772,30 @@ func ruleNIter(w *World, r *Report) {
 				okAll = false
 			}
 		}
+		// the exhausted state is sticky: the path that reports exhaustion does
+		// not write the guard (re-arming is Evaluate's business)
+		rearmed := false
+		for _, b := range fn.Blocks {
+			ret, ok := normalReturn(b)
+			if !ok || !isNilConst(strip(retVal(ret, 0))) {
+				continue
+			}
+			for _, bb := range fn.Blocks {
+				if bb == b || bb.Dominates(b) {
+					for _, in := range bb.Instrs {
+						if st, ok := in.(*ssa.Store); ok {
+							if f, ok := recvFieldAddr(st.Addr); ok && f == gf {
+								rearmed = true
+							}
+						}
+					}
+				}
+			}
+		}
+		if rearmed {
+			r.bad("N-ITER", key, w.pos(fn.Pos()), "the guard "+gf.Name()+" is written on the path that reports exhaustion: after it has answered nil the producer hands out the context node again, so an iterator that was asked once more after MoveNext returned false restarts (from the node it reported last)")
+			continue
+		}
 		if okAll {
 			r.ok("N-ITER", key, w.pos(fn.Pos()), "yields the context once, then nil until Evaluate re-arms it")
 		} else {
